@@ -203,7 +203,46 @@ def check_long(case, acc):
     acc.tag("paths_longer_than_the_recursion_limit")
 
 
+def build_mixed(seps):
+    """One tree whose nodes belong to classes with different class-level separators (layout: r -> a, b; a -> c, d; c -> e)."""
+    classes = [rr.make_class(sep, "name") for sep in seps]
+    parents = [None, 0, 0, 1, 1, 3]
+    names = ["r", "a", "b", "c", "d", "e"]
+    nodes = []
+    for i, parent in enumerate(parents):
+        node = classes[i % len(classes)](names[i])
+        if parent is not None:
+            node.parent = nodes[parent]
+        nodes.append(node)
+    return nodes
+
+
+def check_mixed(case, acc):
+    """A path is read with the separator of the node the query starts at - whatever the classes of the root or of the
+    nodes on the way (a tree may mix node classes)."""
+    nodes = build_mixed(case["seps"])
+    labels = forest.Labels(nodes)
+    for start in nodes:
+        sep = type(start).separator
+        sub = {"sep": sep, "pathattr": "name", "ignorecase": case["ignorecase"], "names": ["r", "a", "b", "c", "d", "e"]}
+        for target in nodes:
+            chain = []
+            cur = target
+            while cur is not None:
+                chain.append(cur.name)
+                cur = cur.parent
+            absolute = sep + sep.join(reversed(chain))
+            for path in (absolute, absolute + sep + "..", absolute + sep + "zz", sep + "x" + absolute[len(sep) + 1:], sep.join([".."] * 2 + ["a"])):
+                exp = check_path(sub, nodes, labels, start, path, acc)
+                if path is absolute and (exp[0] != "node" or exp[1] is not target):
+                    raise Violation("round-trip", "reference disagrees on %r" % (path,))
+    acc.nontrivial(True)
+    acc.tag("trees_mixing_separators")
+
+
 def check_case(case, acc):
+    if case.get("kind") == "mixed":
+        return check_mixed(case, acc)
     if case.get("kind") == "long":
         return check_long(case, acc)
     nodes = rr.build(case)
@@ -365,6 +404,7 @@ def plan(tier, seed):
     tasks = [{"engine": "enum", "max_nodes": max_nodes, "index": i, "count": nshards} for i in range(nshards)]
     tasks += [{"engine": "hyp", "examples": examples, "seed": seed * 1000 + i} for i in range(nshards)]
     tasks += [{"engine": "long", "sep": sep, "ignorecase": ic} for sep, ic in (("/", False), ("::", True))]
+    tasks += [{"engine": "mixed"}]
     if tier == "thorough":
         # coverage-guided supplement: 16 libFuzzer campaigns on the same strategy + oracle (skipped if atheris is unavailable)
         tasks += [{"engine": "fuzz", "runs": 4000, "seed": seed * 100 + i + 1} for i in range(nshards)]
@@ -376,6 +416,15 @@ def run_task(task, acc):
         from ..core import run_fuzz_task
 
         return run_fuzz_task(PROP_ID, task, acc)
+    if task["engine"] == "mixed":
+        for seps in (["/", ":"], [":", "/"], ["|", "::", "/"], ["::", "-"]):
+            for ic in (False, True):
+                case = {"kind": "mixed", "seps": seps, "ignorecase": ic}
+                exc = acc.evaluate(check_case, case, enumerated=False)
+                if exc is not None:
+                    acc.add_violation(case, exc)
+                    return
+        return
     if task["engine"] == "long":
         case = {"kind": "long", "sep": task["sep"], "ignorecase": task["ignorecase"]}
         exc = acc.evaluate(check_case, case, enumerated=False)
